@@ -46,6 +46,7 @@ def check(ctx):
     d7_tables(ctx, idx)
     d8_negative_powers(ctx, idx)
     d9_fresh_results(ctx, idx)
+    d10_cached_expressions(ctx, idx, summ)
 
 
 # ----------------------------------------------------------------------------- D1
@@ -822,6 +823,75 @@ def _d8_class_manager(r, idx, fi, mq):
     r.check('classmethod' in fi.decorators, 'MathArray.enable_negative_powers: decorators', 'classmethod', 'decorators changed: %s' % fi.decorators, fi.loc)
 
 
+# ----------------------------------------------------------------------------- D10
+ME = 'mitxgraders.helpers.calc.expressions.MathExpression'
+
+
+def d10_cached_expressions(ctx, idx, summ):
+    from ..effects import map_args
+    r = ctx.rule('D10.CACHED', 'evaluating a parsed expression never writes into the expression object, which lives in the process-wide parse cache',
+                 floor=10)
+    with r:
+        ci = idx.cls(ME)
+        init = ci.methods.get('__init__')
+        own_attrs = set()
+        if init is not None:
+            for n in walk_own(init.node):
+                if isinstance(n, ast.Assign):
+                    for t in n.targets:
+                        if isinstance(t, ast.Attribute) and isinstance(t.value, ast.Name) and t.value.id == 'self':
+                            own_attrs.add(t.attr)
+        for name, m in sorted(ci.methods.items()):
+            if name == '__init__':
+                continue
+            selfname = m.params[0] if (m.params and not m.is_static) else None
+            for c in walk_all(m.node):
+                if not isinstance(c, ast.Call):
+                    continue
+                # direct mutation of an attribute of the cached object: self.attr[...] = / self.attr.update(...)
+                targets, how = idx.resolve_call(m, c)
+                for t in targets:
+                    if isinstance(t, tuple) or not hasattr(t, 'qualname') or not t.qualname.startswith('mitxgraders.'):
+                        continue
+                    mp = summ.mutated_params(t)
+                    if not mp:
+                        continue
+                    mapping = map_args(t, c)
+                    for pname, arg in mapping.items():
+                        if pname not in mp or arg is None:
+                            continue
+                        base = arg
+                        while isinstance(base, (ast.Subscript, ast.Attribute)) and not (
+                                isinstance(base, ast.Attribute) and isinstance(base.value, ast.Name) and base.value.id == selfname):
+                            base = base.value
+                        if isinstance(base, ast.Attribute) and isinstance(base.value, ast.Name) and base.value.id == selfname and selfname:
+                            mm = mp[pname][0]
+                            r.violation('MathExpression.%s: `%s`' % (name, short(c)), 'the expression\'s own attribute `%s` is handed to %s, which writes into it '
+                                        '(`%s`): MathExpression objects are shared through the process-wide parse cache, so what one evaluation records '
+                                        '(e.g. the largest array dimension seen) is still there for the next evaluation of the same formula text, by any grader'
+                                        % (unparse(arg), t.qualname.split('.')[-1], short(getattr(mm, 'node', c))), lib.loc(m, c),
+                                        expected='a fresh object per evaluation')
+                        else:
+                            r.ok('MathExpression.%s: `%s` -> %s(%s)' % (name, short(c, 40), t.qualname.split('.')[-1], pname),
+                                 'mutated argument is local to the evaluation', lib.loc(m, c))
+            # direct stores into self.<attr> outside __init__
+            for n in walk_all(m.node):
+                tgts = []
+                if isinstance(n, ast.Assign):
+                    tgts = n.targets
+                elif isinstance(n, ast.AugAssign):
+                    tgts = [n.target]
+                for t in tgts:
+                    base = t
+                    while isinstance(base, ast.Subscript):
+                        base = base.value
+                    if isinstance(base, ast.Attribute) and isinstance(base.value, ast.Name) and base.value.id == selfname and selfname:
+                        r.violation('MathExpression.%s: `%s`' % (name, short(n)), 'a method other than the constructor writes `%s` of the cached expression '
+                                    'object: the value persists in the process-wide parse cache across evaluations and graders' % unparse(t), lib.loc(m, n))
+            r.ok('MathExpression.%s' % name, 'no store into the expression object', m.loc, nontrivial=False)
+        r.ok('MathExpression', '%d methods scanned, constructor attributes %s' % (len(ci.methods), sorted(own_attrs)), ci.loc)
+
+
 # ----------------------------------------------------------------------------- D8
 def d8_negative_powers(ctx, idx):
     r = ctx.rule('D8.PAIR', 'the matrix negative-power switch is restored on every exit and has one writer', floor=3)
@@ -940,6 +1010,10 @@ class _Dummy(object):
 _GEN_BODY = "        # setup\n        cls._negative_powers = value\n        try:\n            # try with block\n            yield\n        finally:\n            # teardown\n            cls._negative_powers = cls._default_negative_powers"
 
 MUTANTS = [
+    Mutant('eval-metadata-kept-on-the-cached-expression (seeds C10i/C11j)', EXPR,
+           [("        self.expression = expression\n", "        self.expression = expression\n        self.array_metadata = {'max_array_dim_used': 0}\n"),
+            ("            'array': lambda parse_result: self.eval_array(parse_result, metadata_dict),", "            'array': lambda parse_result: self.eval_array(parse_result, self.array_metadata),"),
+            ("                                    max_array_dim_used=metadata_dict['max_array_dim_used'])", "                                    max_array_dim_used=self.array_metadata['max_array_dim_used'])")], None, 'D10'),
     Mutant('negpow-class-manager-restores-only-on-success', MARR,
            [("    @classmethod\n    @contextmanager\n    def enable_negative_powers(cls, value):", "    @classmethod\n    def enable_negative_powers(cls, value):"),
             (_GEN_BODY, _CLASS_MANAGER % "        if exc_type is None:\n            self.owner._negative_powers = self.owner._default_negative_powers")], None, 'D8'),
